@@ -25,9 +25,9 @@ META = {
     "rule": "elements from the structured generator of DESIGN §4 (angles on the ladder incl. 0, eps-neighbourhood, pi±, beyond pi; "
             "both quaternion hemispheres; translations 0..1e3; scales e^±8), random broadcastable batch shapes, float32/float64; "
             "non-trivial = not all operands identity; distinct by (op, type, dtype, regime tags, shapes)",
-    "trusted": ["accumulated floating-point round-off is measured (history stream), not proved"],
+    "trusted": ["per-step relative accuracy (8 eps) of the float group operations: hypothesis of rounded_history_norm / rounded_scale_pos, measured on every step of every sampled history"],
     "assumptions": ["inputs are valid group elements (unit quaternion to 1 ulp, positive scale)"],
-    "partial": ["round-off drift over long histories: theorem history_valid is over exact arithmetic; the float drift bound n·8·eps is measured"],
+    "partial": ["round-off over long histories: unit-norm drift and scale positivity of the COMPUTED history are theorems (rounded_history_norm, rounded_history_drift, rounded_scale_pos) under a per-step accuracy hypothesis that is measured, not proved; growth of the translation error (n^2 eps relative to the largest translation on the path) is measured only"],
 }
 
 K_ALG = 64.0  # DESIGN §2.2: algebraic ops 64·eps·scale
